@@ -270,6 +270,16 @@ fn o_combined_pair(c: &CombinedPair, st: &mut Stats) -> Result<(), String> {
     Ok(())
 }
 
+fn pair_in_long_name(idx: u64) -> Option<Combined> {
+    let n = TAIL_ALPHABET.len() as u64;
+    let ty = ["golang", "npm", "maven"][(idx % 3) as usize];
+    let k = (idx / 3) % 8;
+    let m = [9usize, 16][((idx / 24) % 2) as usize];
+    let pair = idx / 48;
+    let (a, b) = (TAIL_ALPHABET[(pair / n) as usize] as char, TAIL_ALPHABET[(pair % n) as usize] as char);
+    Some(Combined { ty: ty.into(), text: format!("{}{a}{b}{}", "x".repeat(k as usize), "y".repeat(m)) })
+}
+
 pub fn sections() -> Vec<Box<dyn Section>> {
     vec![
         Box::new(Enumerated {
@@ -309,6 +319,14 @@ pub fn sections() -> Vec<Box<dyn Section>> {
             make: Box::new(|t: crate::engine::Tier, i| combined_pair(t.pick(TAIL_ALPHABET_QUICK, TAIL_ALPHABET), i)),
             oracle: o_combined_pair,
             required: vec!["consecutive-pair"],
+            complete: true,
+        }),
+        Box::new(Enumerated {
+            name: "every-pair-at-every-offset-inside-a-long-name".into(),
+            total: Box::new(|_| (TAIL_ALPHABET.len() * TAIL_ALPHABET.len() * 48) as u64),
+            make: Box::new(|_, i| pair_in_long_name(i)),
+            oracle: o_split,
+            required: vec!["separator-of-the-other-kind"],
             complete: true,
         }),
         Box::new(Random {
